@@ -114,7 +114,7 @@ PROPS['C04'] = dict(
                'Layer::neighbour_from_parts', 'Layer::neighbour_from_shifted_coos', 'Layer::{ncp,eqr,spc}_neighbour',
                'MainWind::{from_offsets,offset_se,offset_sw,index}', 'MainWindMap'],
     bounds={'quick': 'depths 0,1,2,3: every cell a and every other cell c of the depth (both symbolic, full range); guards at depths 0,1,29',
-            'thorough': 'all depths 0..=29 (a depth that exceeds the time cap makes the check exit 2, it is never counted as held)'},
+            'thorough': 'adds depths 4, 8, 16, 17, 24 (the other depths: tier extended; a depth that exceeds the time cap is reported UNDECIDED, never counted as held)'},
     outside='depths not listed for the tier',
     assumptions=['plane oracle: integer vertex coordinates in units of 1/nside with the polar-cap identifications (harness/common/oracles.rs)'],
 )
@@ -164,7 +164,7 @@ PROPS['C10'] = dict(
                'ring::polar_cap_ring_index', 'ring::center_of_projected_cell', 'Layer::center_of_projected_cell'],
     bounds={'quick': 'polar caps: every index, depths 0..2; equatorial region: every index, depths 0,1,2,29 (the successor of the last equatorial '
                      'index is the first south-polar index, i.e. the mirror image of the last cell of the last polar ring)',
-            'thorough': 'polar caps: every index, depths 0..8, and at depths 26 and 29 the first / last 4 cells of each ring in windows of 64 rings; equatorial region: every index, all 30 depths'},
+            'thorough': 'polar caps: every index at depths 0..3, 5, 8, and at depths 26 and 29 the first / last 4 cells of each ring in windows of 64 rings (pole end and transition latitude); equatorial region: every index at the quick depths + 3, 5, 8, 16, 17, 28 (other depths / windows: tier extended)'},
     outside='interior cells of polar rings at depths above 8 (quick: above 2); the full-width ring-index lemma did not finish (DESIGN.md 10.2)',
     assumptions=['f64::sqrt is the IEEE correctly rounded square root (CBMC model, exact)'],
 )
@@ -334,7 +334,7 @@ _BMOC_ASSUME = ['allocator-growth model: BMOCBuilderUnsafe::{new,push,push_raw_u
 _BMOC_BOUNDS = {
     'quick': 'depth_max <= 2 (and (1,1) also with depth_max 3 vs 0); operand shapes (entries of a, entries of b): and (1,1),(2,1),(1,2),(2,2); not (0),(1),(2); or / xor (1,1) incl. operands of '
              'different depth_max; every depth/hash/flag of every entry symbolic; one symbolic probe cell (= all cells of the universe)',
-    'thorough': 'adds and (1,3),(3,1),(0,1),(1,0); not (2) and depth_max 0 / 2; or / xor (1,2),(2,1),(1,0),(0,1)',
+    'thorough': 'adds and (1,3),(3,1),(0,1),(1,0); not (2) and depth_max 0 / 2; or / xor (1,0),(0,1),(1,1) at mixed depth_max; pack 4 entries at depth_max 2 (or / xor (1,2),(2,1) need 40 GB each: C08 keeps or (1,2) and xor (2,1), the others are tier extended)',
 }
 _BMOC_OUT = ('operands with more entries or depth_max > 2; sequences of operator applications (each application is decided from an '
              'arbitrary valid operand, which covers histories as long as outputs are valid -- asserted on every output)')
@@ -403,7 +403,7 @@ PROPS['C09'] = dict(
     functions=['BMOC::{into_iter,flat_iter,flat_iter_cell,to_flat_array,deep_size,to_ranges,from_raw_value}', 'BMOCFlatIter', 'BMOCFlatIterCell',
                'BMOCIter', 'Cell::new', 'build_raw_value', 'to_range'] + _BMOC_FUNCS[:4],
     bounds={'quick': 'views: every valid BMOC with (entries, depth_max) in {(0,1),(2,1),(1,2)}; builder layout: 2 pushes; operator outputs: and (2,2), not (1), xor (1,1)',
-            'thorough': 'adds views (3,1),(2,2); builder layout 3 pushes'},
+            'thorough': 'adds views (1 entry, depth_max 2), flat array of (2,1); builder layout 3 pushes (views of 3 entries: tier extended)'},
     outside='outputs of cone / polygon / ellipse queries (their recursion order is not decided here); longer BMOCs; well-formedness of every operator and '
             'builder output is asserted in the C07 / C08 / C15 harnesses',
     assumptions=_BMOC_ASSUME,
@@ -437,7 +437,7 @@ PROPS['C15'] = dict(
                'slice::sort_unstable', 'Vec::dedup'],
     bounds={'quick': 'pack: every valid sequence of 4 entries at depth_max 1 and of 2 entries at depth_max 2; lower depth: 2 entries, 2->1 and 1->0 (packing); '
                      'fixed-depth builder: depth 1, (capacity, pushes) in {(3,2),(1,2),(4,1),(4,0)} (2 pushes in any order, duplicates included)',
-            'thorough': 'pack: 3 and 4 entries at depth_max 2; lower depth: 3 entries, 2->0; fixed-depth builder: up to 4 pushes, capacities 1..4, depths 0..2'},
+            'thorough': 'pack: 3 and 4 entries at depth_max 2; lower depth: 3 entries, 2->0; fixed-depth builder (real sort model, 40 GB): 4 pushes capacity 4 depth 0, 2 pushes capacity 2 depth 1 (other shapes: tier extended)'},
     outside='push sequences longer than 4, sequences longer than 4 entries; in the fixed-depth builder harnesses the packing step of `or` is cut (pack is decided by the pack harnesses) '
             'and std slice::sort_unstable is replaced by an insertion-sort model (<= 4 elements, asserted)',
     assumptions=_BMOC_ASSUME,
@@ -489,8 +489,8 @@ PROPS['C14'] = dict(
                'nested::external_edge', 'nested::external_edge_sorted', 'nested::external_edge_struct', 'Layer::external_edge_generic', 'ExternalEdge'],
     bounds={'quick': 'internal edge (walk order, sorted variant) and corner / side helpers: every cell, (depth, delta) in {(0,1),(1,1),(1,2),(28,1)}; seam direction tables: '
                      'every cell x every direction at depths 0, 1, 2',
-            'thorough': 'adds (depth, delta) in {(0,2),(2,1),(2,2)}, seam tables at depths 3 and 29, and the external edge (plain, sorted, structured) against the plane oracle + guards, '
-                        'each with a 40 GB / 90 min cap (std iterator / Vec machinery: 5 M variables at depth 0)'},
+            'thorough': 'adds (depth, delta) in {(0,2),(2,1),(2,2)}, seam tables at depths 3 and 29, and the external edge (plain and structured, depth 0, delta 1) against the plane oracle + the internal-edge guard, '
+                        'each with a 40 GB / 90 min cap (std iterator / Vec machinery: 5 M variables at depth 0); other external-edge shapes: tier extended'},
     outside='quick tier: the assembly of the external edge from neighbours + seam tables + internal sides (external_edge_generic / external_edge_struct themselves) is only decided in the thorough tier; delta_depth > 2',
     assumptions=['plane oracle (harness/common/oracles.rs)', 'seam-table harness: Layer::neighbour is the adjacency oracle (decided against plane geometry by C04)',
                  'std::fmt::format / std::io::_print replaced by empty stubs (error messages, one stray println!)'],
@@ -567,7 +567,7 @@ PROPS['C01'] = dict(
                'ZOrderCurve::ij2h', 'check_lat', 'Layer::new', 'nested::get_or_create'],
     bounds={'quick': 'lon in [-25.2, 25.2] (about +-8 pi), lat in [-pi/2, pi/2], all doubles; end-to-end totality/range at depths 0..3; lemma R+P on the real '
                      'base-cell/in-cell computation (depth independent); scaling lemma S for every depth 0..=29 (symbolic per z-order class); guards at depths 0, 5, 29',
-            'thorough': 'end-to-end totality/range at every depth 0..=29'},
+            'thorough': 'adds end-to-end totality/range at depths 4, 8, 16, 17, 29 and lemma R in the north cap (other depths, lemma P product clauses and the equatorial B split: tier extended)'},
     outside='|lon| > 25.2; positions exactly on a polar facet seam are excluded from the placement lemma P (they are covered by R, by the end-to-end runs and by the native oracle); '
             'containment is decided as P (placement within 2^-46 projection units, from the same libm values) composed with S (exact floor in the scaled frame)',
     assumptions=_LIBM_ASSUME + ['assume-guarantee cut at Layer::d0h_lh_in_d0c: lemma R is proved on the real producer (c01_r_*) and assumed by the consumer harnesses (c01_s_*, c02_*)'],
@@ -600,9 +600,10 @@ for reg, rn in ((0, 'npc'), (1, 'eqr'), (2, 'spc')):
                           tiers=(Q if (reg == 1 or not image) else T), timeout=3600, mem_gb=6, unwind=3, stubs=_LIBM,
                           inputs=[('lon', 'f64'), ('lat', 'f64')], replay='c17_native', covers=['second turn', 'pole or equator'],
                           domain='proj: every double lon %s in [-25.2, 25.2], every lat of the %s region: range, sign%s' % ('< 0' if neg else '>= 0', rn, ', image facets' if image else '')))
-        _c17.append(H('c17_proj_ref_' + sfx, 'k_c17_proj_ref(%d, %s);' % (reg, 'true' if neg else 'false'), tiers=Q if reg == 1 else T, timeout=2400, mem_gb=6, unwind=3,
-                      stubs=_LIBM, inputs=[('lon', 'f64'), ('lat', 'f64')], replay='c17_native', covers=['second turn'] + (['polar product clause reached'] if reg != 1 else []),
-                      domain='proj: same domain: agreement with the reference formulae within 2^-46 (polar caps: y for every position, x for cosines with <= 6 significant bits)'))
+        for turn in range(4):
+            _c17.append(H('c17_proj_ref_%s_t%d' % (sfx, turn), 'k_c17_proj_ref(%d, %s, %d);' % (reg, 'true' if neg else 'false', turn), tiers=Q if reg == 1 else T, timeout=2400, mem_gb=6, unwind=3,
+                          stubs=_LIBM, inputs=[('lon', 'f64'), ('lat', 'f64')], replay='c17_native', covers=['last quarter of the turn'] + (['polar product clause reached'] if reg != 1 else []),
+                          domain='proj: |lon| * 4/pi in [%d, %s: agreement with the reference formulae within 2^-46 (polar caps: y for every position, x for cosines with <= 6 significant bits)' % (8 * turn, '%d)' % (8 * turn + 8) if turn < 3 else '32.09]')))
 for row in range(4):
     for q in range(4):
         _c17.append(H('c17_base_cell_r%d_q%d' % (row, q), 'k_c17_base_cell(%d, %d);' % (row, q), tiers=Q, timeout=2400, mem_gb=6, unwind=3,
@@ -679,18 +680,22 @@ for ns in (1, 2, 3, 4, 5, 6, 7, 8, 13, 100, 1000003, (1 << 29) - 1, 1 << 29):
     small = ns <= 13
     tq = Q if ns in (1, 2, 3, 5) else T
     for band, bn in ((0, 'npc'), (1, 'eqr'), (2, 'spc')):
-        _c11.append(H('c11_point_%s_n%d' % (bn, ns), 'k_c11_point(%d, 0, %d);' % (ns, band), tiers=tq, timeout=2400, mem_gb=8, unwind=3, stubs=_PLANE_CUT('verif_c11'),
-                      inputs=[('x', 'f64'), ('y', 'f64')], replay='c11_pullback', replay_const={'nside': ns},
-                      covers=['last base cell column', 'first base cell column'],
-                      domain='nside %d: every double point of the HEALPix image with y in the %s band, farther than 2^-40 from the polar base-cell seams (open finding F4)' % (ns, bn)))
+        # nside 1, 2: one harness per latitude band (quick); other nside: additionally split by base-cell column (thorough)
+        for quad in ((255,) if ns <= 2 else (0, 1, 2, 3)):
+            _c11.append(H('c11_point_%s_n%d%s' % (bn, ns, '' if quad == 255 else '_q%d' % quad), 'k_c11_point(%d, 0, %d, %d);' % (ns, band, quad),
+                          tiers=(Q if ns <= 2 else T), timeout=2400, mem_gb=8, unwind=3, stubs=_PLANE_CUT('verif_c11'),
+                          inputs=[('x', 'f64'), ('y', 'f64')], replay='c11_pullback', replay_const={'nside': ns},
+                          covers=['last base cell column', 'first base cell column'] if quad == 255 else ['east part of the column', 'west part of the column'],
+                          domain='nside %d: every double point of the HEALPix image with y in the %s band%s, farther than 2^-40 from the polar base-cell seams (open finding F4)' % (
+                              ns, bn, '' if quad == 255 else ' and x in [%d, %d%s' % (2 * quad, 2 * quad + 2, ']' if quad == 3 else ')'))))
     if small or ns == 100:
         _c11.append(H('c11_center_n%d' % ns, 'k_c11_center(%d);' % ns, tiers=tq, timeout=2400, mem_gb=8, unwind=3, stubs=_PLANE_CUT('verif_c11'),
                       inputs=[('h', 'u64')], replay='c11_center', replay_const={'nside': ns}, covers=['last cell'],
                       domain='nside %d: every cell number' % ns))
-    _c11.append(H('c11_order_n%d' % ns, 'k_c11_order(%d);' % ns, tiers=(tq if small else T), timeout=2400, mem_gb=8, unwind=3,
+    _c11.append(H('c11_order_n%d' % ns, 'k_c11_order(%d);' % ns, tiers=((Q if ns in (1, 2, 3) else T) if small else T), timeout=2400, mem_gb=8, unwind=3,
                   inputs=[('r', 'u64')], replay='c11_order', replay_const={'nside': ns}, covers=['last pair'],
                   domain='nside %d: every pair of consecutive cell numbers' % ns))
-_c11.append(H('c11_seam_witness_n2', 'k_c11_point(2, 1, 255);', tiers=Q, timeout=1200, mem_gb=8, unwind=3, stubs=_PLANE_CUT('verif_c11'),
+_c11.append(H('c11_seam_witness_n2', 'k_c11_point(2, 1, 255, 255);', tiers=Q, timeout=1200, mem_gb=8, unwind=3, stubs=_PLANE_CUT('verif_c11'),
               inputs=[('x', 'f64'), ('y', 'f64')], replay='c11_pullback', replay_const={'nside': 2}, covers=[],
               domain='witness of the open finding F4 (expected to fail): nside 2, image points on / within 2^-40 of a polar base-cell seam'))
 for w in (0, 1, 2, 3):
@@ -703,7 +708,7 @@ PROPS['C11'] = dict(
     functions=['ring::hash', 'ring::hash_with_dxdy', 'ring::hash_with_dldh', 'ring::deal_with_1x1_box', 'ring::dldh_to_dxdy', 'ring::center_of_projected_cell',
                'ring::polar_cap_ring_index', 'ring::sph_coo', 'ring::center', 'ring::vertices', 'ring::check_hash', 'ring::triangular_number_x4'],
     bounds={'quick': 'nside in {1, 2, 3, 5}: every image point (range, offsets, containment), every cell (centre round trip, sph_coo), every consecutive pair (order); guards at nside 3',
-            'thorough': 'adds nside in {4, 6, 7, 8, 13, 100, 1000003, 2^29-1, 2^29} (harnesses that exceed the cap make the check exit 2)'},
+            'thorough': 'adds nside in {4, 7, 8, 13, 2^29-1, 2^29} (nside 6, 100, 1000003: tier extended; harnesses that exceed a cap are reported UNDECIDED)'},
     outside='other nside values; the composition with the real proj / unproj (the plane cut): decided separately in C17 (image, reference formulae) and evaluated by the native oracle on replay',
     assumptions=_LIBM_ASSUME + ['plane cut: proj returns an arbitrary point of the HEALPix image (guarantee I of C17, slack 2^-50), unproj is the identity on the plane with its domain assertion kept'],
 )
@@ -727,7 +732,7 @@ for _d in range(30):
                   replay_const={'depth': _d, 'dxk': 512, 'dyk': 512}, covers=['last grid point', 'first path point, clockwise'],
                   domain='depth %d: every cell, every point of the 12-point edge path (both directions, 4 starting vertices) and of the 3x3 grid' % _d))
     for band, bn in ((0, 'npc'), (1, 'eqr'), (2, 'spc')):
-        _c03.append(H('c03_image_%s_d%d' % (bn, _d), 'k_c03_image(%d, %d);' % (_d, band), tiers=Q if _d in (0, 1, 2) else T, timeout=2400, mem_gb=8, unwind=4,
+        _c03.append(H('c03_image_%s_d%d' % (bn, _d), 'k_c03_image(%d, %d);' % (_d, band), tiers=Q if _d in (0, 1) else T, timeout=3000, mem_gb=16, unwind=4,
                       unwindset=_c03_us(_d), stubs=_PLANE_CUT_N('verif_c03'), inputs=[('x', 'f64'), ('y', 'f64')], replay='c03_pullback', replay_const={'depth': _d},
                       covers=['x = 4 (seam or base cell corner line)', 'x = 8'],
                       domain='depth %d: every double point of the HEALPix image (x in [0, 8]) with y in the %s band' % (_d, bn)))
@@ -747,8 +752,8 @@ PROPS['C03'] = dict(
     functions=['Layer::center_of_projected_cell', 'Layer::center', 'Layer::sph_coo', 'Layer::vertex', 'Layer::vertices', 'Layer::vertices_map',
                'Layer::path_along_cell_side', 'Layer::path_along_cell_edge', 'Layer::grid', 'Layer::hash_with_dxdy', 'Layer::shift_rotate_scale',
                'discretize', 'Layer::depth0_bits', 'Layer::build_hash', 'Layer::check_hash'],
-    bounds={'quick': 'cells / offsets at depths 0, 1, 2, 29; paths and grid at depths 0, 2, 29 (3 segments per side, 3x3 grid); image totality / containment / inverse at depths 0, 1, 2; guards at depth 2',
-            'thorough': 'every depth 0..=29'},
+    bounds={'quick': 'cells / offsets at depths 0, 1, 2, 29; paths and grid at depths 0, 2, 29 (3 segments per side, 3x3 grid); image totality / containment / inverse at depths 0, 1; range / offset clause alone at depths 0, 1, 29; guards at depth 2',
+            'thorough': 'adds depths 3, 8, 16, 17, 28 (cells, offsets, vertices, paths, image), image at depth 29 and the range / offset clause at every depth 0..=29'},
     outside='the composition with the real proj / unproj within ulps of a cell border and the 1e-13 rad figure near the poles (they depend on the actual libm values; C17 bounds the pair '
             'separately); the clause "the cell given by hash" (hash_v2 vs hash_with_dxdy) is evaluated by the native oracle on replay only; other path segment counts',
     assumptions=_LIBM_ASSUME + ['plane cut: proj returns an arbitrary point of the HEALPix image (guarantee I of C17, slack 2^-50), unproj is the identity on the plane with its domain assertion kept'],
@@ -769,7 +774,7 @@ PROPS['C19'] = dict(
     inject=[dict(host='src/nested/mod.rs', mod='verif_c19', parts=['props/c19.rs', 'kani/c19.rs'])],
     harnesses=_c19,
     functions=['Layer::bilinear_interpolation', 'Layer::neighbours', 'MainWindMap::get'],
-    bounds={'quick': 'depths 0, 1, 2, 3, 29: every cell x the 257 x 257 lattice of offsets (incl. 0, 0.5, 1); separately restricted to the cells lacking a cardinal neighbour', 'thorough': 'every depth 0..=29'},
+    bounds={'quick': 'depths 0, 1, 2, 3, 29: every cell x the 257 x 257 lattice of offsets (incl. 0, 0.5, 1); separately restricted to the cells lacking a cardinal neighbour', 'thorough': 'adds depths 4, 8, 16, 17, 28 (other depths: tier extended)'},
     outside='offsets that are not multiples of 1/256 (arbitrary doubles make the 32 weight products of the code a 45 M clause instance); the computation of the cell and '
             'offsets from the position (hash_with_dxdy, decided by C03)',
     assumptions=['cut at Layer::hash_with_dxdy: it returns the cell number and offsets chosen by the harness (every cell in range, offsets in [0, 1] on the 1/256 lattice)',
@@ -785,14 +790,14 @@ X = ('extended',)
 _KEEP_T = {
     'C01': r'^c01_e2e_d(4|8|16|17|29)$|^c01_r_npc_',
     'C02': r'.',
-    'C03': r'_d(3|8|16|17|28)$|^c03_image_\w+_d29$|^c03_range_',
+    'C03': r'_d(3|8|16|17|28)$|^c03_image_\w+_d(2|29)$|^c03_range_\w+_d(2|3|8|16|17|28)$',
     'C04': r'^c04_pair_d(4|8|16|17|24)$',
     'C06': r'.',
     'C07': r'^(?!c07_(or|xor)_(1_2|2_1)_)',
     'C08': r'^(?!c08_(or_2_1|xor_1_2)_)',
     'C09': r'^(?!c09_views_\w+_3_dm1$)',
     'C10': r'_d(3|5|8|16|17|28)$|^c10_ringends_[ns]_(d26_k67108800|d29_k536870848|d29_k402653184)$',
-    'C11': r'_n(4|7|8|13|536870911|536870912)$',
+    'C11': r'^c11_(center|order)_n(4|5|7|8|13|536870911|536870912)$|^c11_point_\w+_n(3|5)_q\d$',
     'C14': r'^c14_(internal|parts|dirs)_|^c14_(external|struct)_d0_dd1$|^c14_guard_0$',
     'C15': r'^(?!c15_fixed_)|^c15_fixed_(d0_cap4_m4|d1_cap2_m2)$',
     'C16': r'.',
